@@ -94,6 +94,9 @@ class Ranger:
                 rt, st = access_path(t[1])
                 if rt[0] in ('init', 'hav') and not st and _re.search(r'\[u8(;|\])|Vec<u8>', str(body.local_ty(rt[1]).get('s', ''))):
                     r = IntervalSet([(0, 255)])
+        elif k in ('field', 'deref') and '::{closure' in body.path and self.upvar_of(t) is not None:
+            # a variable captured by a closure stands for what it held in the enclosing function where the closure was built
+            r = self.upvar_range(body, self.upvar_of(t), ty, depth)
         elif k == 'field' and t[1][0] == 'downcast':
             # payload of Some/Ok/Continue of a local callee's result: the callee's return range
             inner = t[1][1]
@@ -149,6 +152,42 @@ class Ranger:
         except Exception:
             pass
         return r
+
+    @staticmethod
+    def upvar_of(t):
+        """index of the captured variable a closure-body term reads (`*(*_1).k`), else None"""
+        t = deref_all(t)
+        if t[0] == 'field' and deref_all(t[1])[0] == 'init' and deref_all(t[1])[1] == 1:
+            ix = t[3] if len(t) > 3 else t[2]
+            return ix if isinstance(ix, int) else None
+        return None
+
+    def upvar_range(self, body, ix, ty, depth):
+        """Range of captured variable `ix` of a closure: the join of its ranges in the enclosing function at the places where the
+        closure value is built (under the conditions of the path up to there); None if that cannot be read."""
+        key = ('upvar', body.path, ix)
+        if key in self.param_cache:
+            return self.param_cache[key]
+        self.param_cache[key] = None
+        f = self.ctx.facts
+        parent = body.path.rsplit('::{closure', 1)[0]
+        pb = f.bodies.get(parent)
+        if pb is None or depth > 8:
+            return None
+        paths, _ = self.paths(pb)
+        res = IntervalSet([])
+        found = False
+        for q in paths:
+            for e in q.calls():
+                for a in e[2]:
+                    for s_ in subterms(a):
+                        if s_[0] == 'agg' and isinstance(s_[1], tuple) and s_[1][0] == 'closure' and s_[1][1] == body.path and ix < len(s_[2]):
+                            found = True
+                            pf = PathFacts(q.conds[:e[6]])
+                            res = res.union(self.term_range(pb, deref_all(s_[2][ix]), pf, ty, depth + 1))
+        out = res if found and not res.empty() else None
+        self.param_cache[key] = out
+        return out
 
     def ret_range(self, callee, variant):
         """Range of the integer payload of Some(..)/Ok(..) over all return paths of a local callee."""
@@ -237,6 +276,27 @@ class Ranger:
         return res
 
 
+def _closure_operands_read(rg, b, p, operands):
+    """In a closure: every variable the operands mention is a captured variable whose range was read in the enclosing function."""
+    if '::{closure' not in p:
+        return False
+    seen = False
+    for o_ in operands:
+        for x_ in subterms(o_):
+            if x_[0] in ('hav', 'post'):
+                return False
+            if x_[0] == 'init' and isinstance(x_[1], int):
+                if x_[1] != 1:
+                    return False
+        ups = [rg.upvar_of(x_) for x_ in subterms(o_) if x_[0] in ('field',)]
+        ups = [u for u in ups if u is not None]
+        for u in ups:
+            seen = True
+            if rg.upvar_range(b, u, None, 0) is None:
+                return False
+    return seen
+
+
 def overflow_sites(ctx, run, rule, cone, want_types=NARROW, floor=None, label='narrow-int arithmetic'):
     f = ctx.facts
     rg = Ranger(ctx)
@@ -292,6 +352,12 @@ def overflow_sites(ctx, run, rule, cone, want_types=NARROW, floor=None, label='n
                         s['opaque'] = None
                         for x in e[2]:
                             s['opaque'] = s['opaque'] or opaque_container(x, b, arithmetic=True)
+                        # were the ranges of the parameters involved derived from the arguments at every call site (a private function all of
+                        # whose callers were read)?  then "what the callers pass" is part of the verdict, not an open question
+                        prm = {x_[1] for o_ in e[2] for x_ in subterms(o_) if x_[0] == 'init' and isinstance(x_[1], int) and 1 <= x_[1] <= b.argc}
+                        s['callers_read'] = bool(prm) and '::{closure' not in p and b.vis != 'pub' and all(rg.param_range(b, k_) is not None for k_ in prm) and \
+                            not any(x_[0] in ('hav', 'post') for o_ in e[2] for x_ in subterms(o_))
+                        s['callers_read'] = s['callers_read'] or _closure_operands_read(rg, b, p, e[2])
                     elif s['wit'] is None:
                         s['wit'] = wit
                 elif e[0] == 'call' and called(e[1], 'abs') and e[2]:
@@ -310,6 +376,9 @@ def overflow_sites(ctx, run, rule, cone, want_types=NARROW, floor=None, label='n
                     s = sites.setdefault(k, {'ok': True, 'wit': None, 'loc': f"{t.get('file')}:{t.get('line')}"})
                     if not ok and s['ok']:
                         s['ok'] = False
+                        prm = {x_[1] for x_ in subterms(e[2][0]) if x_[0] == 'init' and isinstance(x_[1], int) and 1 <= x_[1] <= b.argc}
+                        s['callers_read'] = (bool(prm) and '::{closure' not in p and b.vis != 'pub' and all(rg.param_range(b, k_) is not None for k_ in prm)
+                                             and not any(x_[0] in ('hav', 'post') for x_ in subterms(e[2][0]))) or _closure_operands_read(rg, b, p, e[2][:1])
                     s['wit'] = f'operand in {a}; abs() overflows for {tr.lo()}'
     n = 0
     from panics import baseline_sites
@@ -320,6 +389,8 @@ def overflow_sites(ctx, run, rule, cone, want_types=NARROW, floor=None, label='n
             run.proved(rule, p, desc, s['wit'] or '', s['loc'])
         elif s.get('opaque'):
             run.undecided(rule, p, desc, f'{label} not shown to stay in range, but not refuted either ({s["opaque"]}, which the interval evaluation does not model): {s["wit"]}', s['loc'])
+        elif base is not None and p not in base['functions'] and s.get('callers_read'):
+            run.violation(rule, p, desc, f'{label} can overflow for the arguments its callers pass (every call site of this private function was read; panics in dev builds, wraps in release): {s["wit"]}', s['loc'])
         elif base is not None and p not in base['functions']:
             run.undecided(rule, p, desc, f'{label} in a function that did not exist on the pinned tree, not shown to stay in range ({s["wit"]}); whether its callers bound the operands is not decided', s['loc'])
         else:
@@ -445,3 +516,58 @@ def table_len(body, term, base):
     if m:
         return int(m.group(1))
     return None
+
+
+# ------------------------------------------------------------------ R20.5 an integer argument of a public function is not narrowed blindly
+
+def param_cast_sites(ctx, run, rule, only=None, floor=None):
+    """Every `as` cast applied directly to an integer parameter of a public function must be value preserving for all the values that
+    reach it: the whole range of the parameter's type, cut down by the conditions of the path (`if index < 0 { .. }`).  A caller may
+    pass any value (usize::MAX, i32::MIN); a cast that wraps turns it into a different, plausible-looking position."""
+    f = ctx.facts
+    rg = Ranger(ctx)
+    n = 0
+    for p, b in sorted(f.bodies.items()):
+        if b.kind == 'Promoted' or b.vis != 'pub' or '::{closure' in p or (only is not None and not only(p)):
+            continue
+        ints = [k for k in range(1, b.argc + 1) if b.local_ty(k).get('s') in INT_RANGES]
+        if not ints:
+            continue
+        paths, capped = rg.paths(b)
+        sites = {}
+        for q in paths:
+            occ = [(a, q.conds[:e[6]], e[5]) for e in q.calls() for a in e[2]]
+            if q.ret is not None:
+                occ.append((q.ret, q.conds, None))
+            for t, conds, te in occ:
+                for s in subterms(t):
+                    if not (s[0] == 'cast' and s[1] == 'IntToInt' and len(s) > 3 and s[3] in INT_RANGES):
+                        continue
+                    src = deref_all(s[2])
+                    if not (src[0] == 'init' and src[1] in ints):
+                        continue
+                    pf = PathFacts(conds)
+                    if pf.infeasible():
+                        continue
+                    sty = b.local_ty(src[1]).get('s')
+                    r = rg.term_range(b, src, pf, sty)
+                    to = IntervalSet.of_type(s[3])
+                    ok = (not r.empty()) and r.subset_of(to)
+                    key = (b.name_of(src[1]) or f'#{src[1]}', sty, s[3])
+                    d = sites.setdefault(key, {'ok': True, 'wit': None, 'loc': f"{te.get('file')}:{te.get('line')}" if te else f'{b.file}:{b.line}'})
+                    if not ok and d['ok']:
+                        d['ok'] = False
+                        d['wit'] = f'{key[0]} in {r}'
+                    elif d['wit'] is None:
+                        d['wit'] = f'{key[0]} in {r}'
+        for (nm, sty, tty), d in sorted(sites.items()):
+            n += 1
+            desc = f'cast[{nm}: {sty} as {tty}]'
+            if d['ok']:
+                run.proved(rule, p, desc, f'value preserving on every path ({d["wit"]} fits {tty})', d['loc'])
+            else:
+                run.violation(rule, p, desc, f'the argument `{nm}` is cast from {sty} to {tty} on a path where it is only known to be {d["wit"].split(" in ", 1)[1]}: an extreme argument wraps to a '
+                              f'different value (usize::MAX as i32 is -1) and is then used as if the caller had passed that', d['loc'])
+    if floor is not None:
+        run.floor(rule, 'casts of integer parameters of public functions', n, floor)
+    return n
